@@ -79,6 +79,10 @@ def handleC15 : Handler := fun op j =>
       pure (Json.mkObj [("fields", c15PairsJson (groupedFields ms)),
         ("values", Json.arr (ks.map fun k => match groupedGet ms k with
           | some v => Json.arr #[v]
+          | none => Json.null).toArray),
+        -- the dictionary view (`_asdict`), with a marker for a value that would be the group object's own attribute
+        ("asdict", Json.arr (ks.map fun k => match groupedAsdictGet (fun _ => Json.str "<own attribute of the group>") ms k with
+          | some v => Json.arr #[v]
           | none => Json.null).toArray)])
   | "c15_replace" => some do
       let r ← c15Rec (← getObj j "record")
